@@ -1,19 +1,30 @@
 """C02 — HDLC: every well-formed frame on a clean stream is delivered once, in order."""
-from props import hdlc_model as M
+from props import hdlc_model as M, clean_hdlc as CL
 from pyvc import run
 
-KEEP = ("T1 ", "T2 ", "T3 ", "T4 ", "T5 ", "T6 ", "T7 ", "T8 ", "T9 ", "T10 ", "frame_inv", "unstuff(raw)", "octets == raw", "no pending escape", "2047", "consumes at least", "every octet of the chunk", "returned", "pre:", "inv-entry", "inv-keep")
 def build(repo, tier, seed):
-    tasks = M.hdlc_tasks(repo, ("lemmas", "get_address", "init", "append", "valid", "accessors"), True) + [(f"segment lemma {cfg}", M.group_segment_lemma, (repo, cfg)) for cfg in M.CONFIGS if cfg[0]]
+    tasks = M.hdlc_tasks(repo, ("lemmas", "get_address", "init", "append", "valid", "accessors"), True) + [(f"segment lemma {cfg}", M.group_segment_lemma, (repo, cfg)) for cfg in M.CONFIGS if cfg[0]] + \
+            [(f"clean stream {cfg}", CL.group_clean_stream, (repo, cfg)) for cfg in M.CONFIGS]
     r = M.groups_result(tasks, select=None)
     r.functions = sorted(set(M.READER_FUNCS) | {o.func for o in r.obligations if o.func})
-    r.level = "other"
-    r.explanation = ("C02: proved from the real source: the exact transition of the reader on every input octet (clauses T1-T10: flag on empty frame restarts, flag before the header check sequence discards, abort sequence "
+    r.level = "proof"
+    r.explanation = ("C02: (1) proved from the real source: the exact transition of the reader on every input octet (clauses T1-T13: flag on empty frame restarts, flag before the header check sequence discards, abort sequence "
                      "discards only when the raw octet before the flag is the escape octet, with stuffing any other flag completes the frame, without stuffing only a flag at the announced length, other flags and octets are "
-                     "frame data, over-long frames are discarded), the frame contracts of C01 (validity, exact payload and header fields for any address length), frames up to 2047 octets are never discarded as over-long. "
-                     "The clean-stream lemma (every well-formed frame delivered exactly once, in order, for every chunking) is an induction over the wire using these clauses; it is run as a BOUNDED stand-in on the real reader "
-                     "(generated frame sequences incl. 1..4-octet addresses, flag/escape payloads, header-only and 2047-octet frames, fill, leading noise, chunkings, four configurations). Hence level 'other'.")
-    r.not_decided = ["lemma clean_stream is bounded, not proved"]
+                     "frame data, over-long frames are discarded; T11-T13 state the same on the frame array and the pending-escape flag), the frame contracts of C01 (validity, exact payload and header fields for any address "
+                     "length). (2) The clean-stream lemma is a second contract of the real read(), proved through _read_next's contract for all four configurations (props/clean_hdlc.py): on a stream that from its first flag on "
+                     "consists of flags and well-formed frames (stuffed on the wire / unstuffed with flag-free headers), with STATE(g) = 'the reader holds exactly what an ideal un-stuffer holds at stream position g', "
+                     "read(chunk) takes STATE(g) to STATE(g+len(chunk)) and returns exactly one frame per closing flag in the chunk, in order, each the frame that was sent (octets, length) and valid; a new reader "
+                     "skips flag-free noise and reaches STATE at the first flag. Pre- and postcondition are the same predicate of the position, so the calls compose for every splitting of the stream (sequential "
+                     "composition of the contract; this last step is the usual rule, not a separate obligation). Unbounded in the number and length of frames (<= 2047 octets each) and chunks.")
+    r.assumptions = ["clean stream = the hypotheses CLEAN(p) of props/clean_hdlc.py at every position p after the first flag (recurrences defining the ideal un-stuffer; at closing flags: complete header, valid_frame, <= 2047 octets, "
+                     "nothing pending, with abort detection no escape octet before the flag; without stuffing: no flag inside the header, a flag ends the frame exactly at the announced length). The bounded run `ideal_check` "
+                     "confirms on every generated clean stream that these hypotheses hold for it and that the real reader meets the contract (cover canaries show every kind of step is reachable under them).",
+                     "which array represents the octets of an empty frame is a free choice of representation (only the first len entries of a frame array mean anything): the lemma picks the array of the frame about to arrive "
+                     "(ghost function new_frame_array, uninterpreted in every other proof)",
+                     "the composition over calls (same predicate before and after each call) is the sequential-composition rule, applied by hand"]
+    r.not_decided = []
     b = run.rt_call("C02", "clean_stream", {"seed": seed, "n": 500 if tier == "quick" else 12000})
     r.bounded.append(b if "name" in b else {"name": "clean_stream", "error": b.get("error", b)})
+    b = run.rt_call("C02", "ideal_check", {"seed": seed, "n": 300 if tier == "quick" else 6000})
+    r.bounded.append(b if "name" in b else {"name": "ideal_check", "error": b.get("error", b)})
     return r
